@@ -670,11 +670,17 @@ fn fit_to_bezpath_opt_inner(
         } else {
             range.end
         };
-        let (c, _) = fit_to_cubic(source, t0..t1, accuracy).unwrap();
-        if i == 0 && range.start == 0.0 {
-            path.move_to(c.p0);
+        match fit_to_cubic(source, t0..t1, accuracy) {
+            Some((c, _)) => {
+                if i == 0 && range.start == 0.0 {
+                    path.move_to(c.p0);
+                }
+                path.curve_to(c.p1, c.p2, c.p3);
+            }
+            // The error is not monotone in the break parameter, so the segment found by the
+            // search need not fit; fall back to plain subdivision for this piece.
+            None => fit_to_bezpath_rec(source, t0..t1, accuracy, path),
         }
-        path.curve_to(c.p1, c.p2, c.p3);
         t0 = t1;
         if t0 == range.end {
             // This is unlikely but could happen when not monotonic.
